@@ -1,0 +1,6 @@
+//go:build !verif
+
+package heapq
+
+// verifParent is a no-op unless the package is built with the "verif" tag.
+func verifParent(_, par int) int { return par }
